@@ -1,7 +1,92 @@
-"""native back end: exhaustive enumerators / witness searches linked against a copy of /repo (filled in below)."""
+"""native back end: exhaustive enumerators / witness searches linked against a copy of /repo's working tree.
+These are NOT deductive; they are reported under `exhaustive_native` / as witnesses, never under `discharged`."""
+import json
+import shutil
+import time
+from pathlib import Path
+
+import vf
+
+NATIVE = {
+    "C15": [
+        dict(name="c15_exhaustive_default", cmd="c15", rustflags="", kind="exhaustive", tier="quick", fn="get_rook_moves,get_bishop_moves",
+             desc="complete enumeration (not deduction): the real lookups on EVERY subset of the relevant squares of every square (rook+bishop), each with the irrelevant squares empty, all set, and two seeded random fillings, against the ray walk"),
+        dict(name="c15_exhaustive_bmi2", cmd="c15", rustflags="-C target-feature=+bmi2", kind="exhaustive", tier="quick", fn="get_rook_moves_bmi,get_bishop_moves_bmi,get_rook_moves,get_bishop_moves",
+             desc="same complete enumeration in a -C target-feature=+bmi2 build: pext/pdep lookups AND magic lookups against the ray walk (hence against each other); Kani has no model of pext/pdep, so this configuration is decided by enumeration only", needs_cpu="bmi2"),
+    ],
+}
+
+
 def obligations(prop, tier):
-    return []
+    return [o for o in NATIVE.get(prop, []) if tier == "thorough" or o["tier"] == "quick"]
+
+
+def ensure_plain_copy(work: Path):
+    if not (work / "Cargo.toml").exists():
+        if work.exists():
+            shutil.rmtree(work)
+        work.mkdir(parents=True)
+        shutil.copytree(vf.REPO / "src", work / "src")
+        for n in ("Cargo.toml", "Cargo.lock"):
+            shutil.copy(vf.REPO / n, work / n)
+
+
+def build(work: Path, rustflags: str, logp: Path):
+    ensure_plain_copy(work)
+    nd = work / "vnative"
+    if not nd.exists():
+        shutil.copytree(vf.NATIVE_DIR, nd, ignore=shutil.ignore_patterns("target"))
+        (nd / "Cargo.toml").write_text((nd / "Cargo.toml").read_text().replace("CHESS_PATH", str(work)))
+        main = (nd / "src" / "main.rs").read_text().replace('#[path = "../../spec/rules.rs"]', '#[path = "%s"]' % (vf.VERIF / "spec" / "rules.rs"))
+        (nd / "src" / "main.rs").write_text(main)
+        shutil.copy(vf.REPO / "Cargo.lock", nd / "Cargo.lock")
+    tag = "bmi2" if "bmi2" in rustflags else "default"
+    env = {"CARGO_TARGET_DIR": str(nd / ("target-" + tag))}
+    if rustflags:
+        env["RUSTFLAGS"] = rustflags
+    rc, out, wall = vf.sh(["cargo", "build", "--release", "--offline"], cwd=nd, timeout=1800, env=env)
+    with open(logp, "a") as fh:
+        fh.write("$ [native build %s]\n%s\n" % (tag, out[-6000:]))
+    if rc != 0:
+        raise vf.Undecided("native build failed (%s): %s" % (tag, out[-800:].replace("\n", " | ")))
+    return nd / ("target-" + tag) / "release" / "vnative"
+
+
 def run(prop, tier, obs, work, logp, seed):
-    return [], set(), ""
+    recs = []
+    trusted = {"native enumerators run the real crate through its public API; they are complete enumerations / witness searches, not proofs"}
+    cpuflags = Path("/proc/cpuinfo").read_text() if Path("/proc/cpuinfo").exists() else ""
+    for o in obs:
+        t0 = time.time()
+        if o.get("needs_cpu") and o["needs_cpu"] not in cpuflags:
+            recs.append(dict(obligation=o["name"], id=o["name"], backend="native", kind=o["kind"], function=o["fn"], desc=o["desc"], bound="",
+                             verdict="undecided", why="CPU lacks %s; configuration cannot be executed here" % o["needs_cpu"], seconds=0, cases=0))
+            continue
+        exe = build(work, o["rustflags"], logp)
+        rc, out, wall = vf.sh([str(exe), o["cmd"], str(seed)], cwd=work, timeout=3600)
+        last = [l for l in out.strip().splitlines() if l.startswith("{")]
+        try:
+            res = json.loads(last[-1]) if last else {}
+        except Exception:
+            res = {}
+        with open(logp, "a") as fh:
+            fh.write("$ vnative %s %d -> rc=%d\n%s\n" % (o["cmd"], seed, rc, out[-3000:]))
+        if res.get("ok") is True and rc == 0:
+            verdict, why = "ok", ""
+        elif res.get("ok") is False:
+            verdict, why = "violation", "native enumeration found a disagreeing input: %s" % json.dumps(res.get("witness"))
+        else:
+            verdict, why = "undecided", "native run failed rc=%d: %s" % (rc, out[-400:].replace("\n", " | "))
+        recs.append(dict(obligation=o["name"], id=o["name"], backend="native", kind=o["kind"], function=o["fn"], desc=o["desc"], bound="",
+                         verdict=verdict, why=why, seconds=time.time() - t0, cases=res.get("cases", 0),
+                         witness=dict(res.get("witness") or {}, native_cmd="vnative %s %d" % (o["cmd"], seed), rustflags=o["rustflags"]) if res.get("ok") is False else None,
+                         output=out[-2000:]))
+    return recs, trusted, "cargo build --release --offline (vnative against a copy of /repo) && vnative <cmd> <seed>"
+
+
 def replay(ce, work, logp):
-    return 1
+    cmd = ce.get("native_cmd", "").split()
+    exe = build(work, ce.get("rustflags", ""), logp)
+    rc, out, _ = vf.sh([str(exe)] + cmd[1:], cwd=work, timeout=3600)
+    print(out[-3000:])
+    return 1 if rc == 1 else (0 if rc == 0 else 2)
